@@ -92,11 +92,14 @@ Definition xpadding_node (o : padopts) (xi : xinfo) : node :=
             let x1 := if x <? l then l else if maxcol - r <=? x then maxcol - r - 1 else x in
             MPAsk 0 fixed_size (x1 - l) y None
           else n_move nd s x y)
+       (* rendered fixed: only width 'pack' around a fixed widget (with a given width render hands (width,) to the
+          child but the other three methods hand it (); see the report), non-negative fixed margins *)
        (fun s => if is_fixed s then
                    let '(l, r) := xpadding_values_fixed o xi in
-                   (0 <=? l) && (0 <=? r)
-                   && (if is_pack (pa_wt o) then x_fixed xi else is_given (pa_wt o) && x_flow xi)
-                 else n_fits nd s).
+                   (0 <=? l) && (0 <=? r) && (0 <=? pa_left o) && (0 <=? pa_right o)
+                   && is_pack (pa_wt o) && x_fixed xi
+                   && (omin (pa_minw o) 1 <=? fst (x_pack xi))
+                 else n_fits nd s && (let '(l, r) := padding_values o (fst s) in 0 <=? fst s - (l + r))).
 Definition xpadding_info (o : padopts) (xi : xinfo) : xinfo :=
   XInfo (padding_info o (xc xi))
         (x_flow xi) (x_fixed xi || (is_given (pa_wt o) && x_flow xi)) (xpadding_pack o xi)
@@ -238,7 +241,10 @@ Definition xpile_fits (items : xp_items) (fp : Z) (s : size) : bool :=
   && match snd s with
      | Some maxrow => (zsum (map fst rs) <=? maxrow) && (0 <? snd (xpile_pass1 items (fst s)))
      | None => true
-     end.
+     end
+  (* an item rendered fixed is not wider than the Pile; a Pile rendered fixed has a width *)
+  && (if is_fixed s then 1 <=? xpile_max_width items
+      else forallb (fun it => x_flow (snd it) || negb (x_fixed (snd it) && is_ppack (fst it)) || (fst (x_pack (snd it)) <=? fst s)) items).
 Definition xpile_node (items : xp_items) (fp : Z) : node :=
   Node (xpile_cinfo items) (fun s => pile_place_from (xpile_rows_sizes items s) 0 0 fp)
        (xpile_cursor items fp) (xpile_route items fp) (xpile_move items) (xpile_fits items fp).
@@ -385,6 +391,11 @@ Definition xcolumns_fits (items : xc_items) (fp dc mw : Z) (s : size) : bool :=
   negb (n =? 0) && (0 <=? fp) && (fp <? n) && (0 <=? dc) && (zlen cs =? n)
   && forallb (fun t => (1 <=? fst (fst t)) && (1 <=? snd (fst t))
                        && match snd s with Some maxrow => snd (fst t) <=? maxrow | None => true end) cs
+  (* a column rendered fixed is as wide and as high as its widget at least *)
+  && forallb (fun p : (Z * Z * size) * (copt * bool * xinfo) =>
+                negb (is_fixed (snd (fst p)))
+                || ((fst (x_pack (snd (snd p))) <=? fst (fst (fst p))) && (snd (x_pack (snd (snd p))) <=? snd (fst (fst p)))))
+             (combine cs items)
   && (is_fixed s
       || ((zsum (map (fun t => fst (fst t)) cs) + dc * (n - 1) <=? fst s)
           && forallb (fun it => 0 <=? xstatic_w (fst (fst it)) (snd it) mw (fst s)) items
@@ -451,6 +462,7 @@ Definition xoverlay_node (o : ovopts) (ti : xinfo) : node :=
                      let maxcol := fst s in
                      let '(l, r, t, b) := xoverlay_lrtb o ti maxcol maxrow in
                      negb (is_fixed s) && (0 <=? l) && (0 <=? r) && (0 <=? t) && (0 <=? b)
+                     && (0 <=? maxcol - l - r) && (0 <=? maxrow - t - b)
                      && (if is_pack (pa_wt (ov_pad o)) then x_fixed ti && (t + snd (x_pack ti) <=? maxrow)
                          else if is_pack (fi_ht (ov_fill o)) then t + i_rows (xc ti) (maxcol - l - r) <=? maxrow else true)
                  end).
@@ -496,6 +508,25 @@ Definition xnode_of (w : widget) (ki : list xinfo) : node * xinfo :=
       (nd, XInfo (n_info nd) false false (0, 0) (fun s => fst s))
   end.
 
+(* no fixed part anywhere in the tree: no fixed leaf, no 'pack' column, no Overlay with width 'pack' *)
+Fixpoint sized_tree (w : widget) : bool :=
+  match w with
+  | Leaf l => lfw l =? 0
+  | Pile items _ => forallb (fun it => sized_tree (snd it)) items
+  | Columns items _ _ _ => forallb (fun it => negb (is_cpack (fst (fst it))) && sized_tree (snd it)) items
+  | Padding c _ _ _ _ _ _ _ => sized_tree c
+  | Filler c _ _ _ _ _ _ _ => sized_tree c
+  | Frame body hdr ftr _ =>
+      sized_tree body && match hdr with Some h => sized_tree h | None => true end
+                      && match ftr with Some f => sized_tree f | None => true end
+  | BoxAdapter c _ => sized_tree c
+  | AttrMap c => sized_tree c
+  | Overlay t b _ _ wt _ _ _ _ _ _ _ _ _ _ _ => negb (is_pack wt) && sized_tree t && sized_tree b
+  end.
+
+(* The extended view.  On a (sub)tree without fixed parts it IS the view of Geometry.v - the model the theorems of
+   Properties/C09.v are about - so the two models coincide there by construction ([xview_sized]); only the sizing()
+   flags, pack(()) and canvas width that a parent WITH fixed parts needs are computed by this file's rules. *)
 Fixpoint xview (w : widget) : wview * xinfo :=
   let kids : list (wview * xinfo) :=
     match w with
@@ -512,10 +543,12 @@ Fixpoint xview (w : widget) : wview * xinfo :=
     | AttrMap c => [xview c]
     | Overlay t b _ _ _ _ _ _ _ _ _ _ _ _ _ _ => [xview t; xview b]
     end in
-  match w with
-  | Leaf l => (xleaf_view l, xleaf_info l)
-  | _ => let '(nd, xi) := xnode_of w (map snd kids) in (xinterp w nd (map fst kids), xi)
-  end.
+  let '(v, xi) :=
+    match w with
+    | Leaf l => (xleaf_view l, xleaf_info l)
+    | _ => let '(nd, xi) := xnode_of w (map snd kids) in (xinterp w nd (map fst kids), xi)
+    end in
+  if sized_tree w then (view w, XInfo (v_info (view w)) (x_flow xi) (x_fixed xi) (x_pack xi) (x_ccols xi)) else (v, xi).
 
 (* ------------------------------------------------------------------------------------------ *)
 (* wire: case = model cols hasrows rows nmoves (col row)* tree;  model 0 = Geometry.v, 1 = this file;            *)
